@@ -102,6 +102,8 @@ pub enum Timeout {
     /// ns
     Some(u64),
     None,
+    /// Duration::MAX: a user timeout that cannot be added to any instant
+    Max,
 }
 
 /// Child of a composite source.
@@ -224,6 +226,9 @@ pub enum Op {
     SigRemove(Id, Vec<u8>),
     SigSet(Id, Vec<u8>),
     Raise(u8),
+    /// the same signal sent to the process (kill(getpid())) instead of the thread: a second,
+    /// separate pending instance
+    Kill(u8),
     Nop,
     /// n sends in a row (queue lengths around the 1024 batch limit)
     SendMany(Id, u32),
@@ -374,6 +379,7 @@ impl Op {
             Op::SigRemove(..) => "SigRemove",
             Op::SigSet(..) => "SigSet",
             Op::Raise(_) => "Raise",
+            Op::Kill(_) => "Kill",
             Op::Nop => "Nop",
             Op::SendMany(..) => "SendMany",
             Op::ScheduleMany { .. } => "ScheduleMany",
